@@ -198,6 +198,13 @@ def run(ctx, rep, tier):
     cm = ast.unparse(model.func("ConditionalAction.get_target_override_mode"))
     ok = "submode = ActionOverrideMode.MAY_GOTO_UNDEFINED" in cm and "submode = ActionOverrideMode.MAY_GOTO_TARGET" in cm and "if submode.value > mode.value" in cm
     rep.check(ok, "C05.d", "ConditionalAction.get_target_override_mode", "ALWAYS_* weakened to MAY_*, strongest mode kept", "conditional-action mode aggregation changed")
+    cmf = model.func("ConditionalAction.get_target_override_mode")
+    rets = [n for n in walk_no_nested(cmf) if isinstance(n, ast.Return)]
+    init = [n for n in strip_doc(cmf.body) if isinstance(n, ast.Assign) and ast.unparse(n.value) == "ActionOverrideMode.NONE"]
+    ok = len(rets) == 1 and len(init) == 1 and isinstance(rets[0].value, ast.Name) and rets[0].value.id == ast.unparse(init[0].targets[0]) and rets[0] is strip_doc(cmf.body)[-1]
+    rep.check(ok, "C05.d", "ConditionalAction.get_target_override_mode", "only returns the aggregated (weakened) mode - never an ALWAYS_* mode",
+              "a conditional action's sub-actions run under run-time conditions (a branch may be skipped, an if may have no else): reporting an ALWAYS_* mode makes dfs() prune the "
+              "transition's real target and code generation omit the state store - `if n > 100 { finish X; }` followed by more statements breaks when the condition is false")
     ct = ast.unparse(model.func("ConditionalAction.get_target_override_targets"))
     rep.check("tgts.update(act.get_target_override_targets())" in ct and "itertools.chain(*self.sub_actions.values())" in ct, "C05.d", "ConditionalAction.get_target_override_targets",
               "union of all sub-actions' targets", "conditional-action targets changed")
